@@ -147,20 +147,35 @@ package wkbcommon
 //@   loop 1: invariant 0 <= i && len(result) == i && len(data) + 4 <= old(len(data)) && fresh(result) && result != nil
 //@   loop 1: invariant i >= 1 ==> old(len(data)) >= 13 + 16*len(result[0])
 
+// bytes taken by the rings of a polygon payload: 4 + 16*len(ring) each. `specfold`: the sum depends
+// on memory only through the first n ring headers (proved by induction: obligation fold:polyBytes),
+// which is what lets the invariant survive the append that extends the result.
+//@ spec polyBytes(p orb.Polygon, n int) int = ite(n <= 0, 0, polyBytes(p, n-1) + 4 + 16*len(p[n-1]))
+//@ specfold polyBytes p n
+
+// a decoded polygon accounts for its bytes: count word + per ring (count word + 16 bytes per point)
 //@ func unmarshalPolygon(order, data) (result, err)
 //@   modifies nothing
 //@   opt alloc=MaxMultiAlloc
-//@   loop 1: invariant fresh(result) && result != nil
+//@   ensures err == nil ==> old(len(data)) >= 4 + polyBytes(result, len(result))
+//@   loop 1: invariant fresh(result) && result != nil && 0 <= i && len(result) == i
+//@   loop 1: invariant len(data) + 4 + polyBytes(result, i) == old(len(data))
 
-// unmarshalMultiPolygon advances by 9 + sum over rings of (4 + 16*len(ring)); keeping that advance in
-// range needs an induction over the ring sum that the generator does not do. It is NOT verified:
-// the contract below is assumed (listed under assumptions in the evidence).
+// the member loop of a multi-polygon advances by 9 + polyBytes(member): in range because ScanPolygon
+// succeeded on at least that many bytes
+// (that the running byte count l itself stays below 2^63 is ASSUMED: `ovf assume`, listed)
 //@ func unmarshalMultiPolygon(order, data) (result, err)
-//@   trusted
+//@   ovf assume
 //@   modifies nothing
+//@   opt alloc=MaxMultiAlloc
+//@   ensures err == nil && len(result) >= 1 ==> old(len(data)) >= 13 + polyBytes(result[0], len(result[0]))
+//@   loop 1: invariant fresh(result) && result != nil && 0 <= i && len(result) == i && len(data) + 4 <= old(len(data))
+//@   loop 1: invariant i >= 1 ==> old(len(data)) >= 13 + polyBytes(result[0], len(result[0]))
+//@   loop 2: invariant -1 <= rangeindex && rangeindex < len(p) && l >= 9 && l == 9 + polyBytes(p, rangeindex + 1) && fresh(result) && result != nil && 0 <= i && len(result) == i && len(data) + 4 <= old(len(data)) && len(data) >= 9 + polyBytes(p, len(p)) && (i >= 1 ==> old(len(data)) >= 13 + polyBytes(result[0], len(result[0])))
 
 //@ func ScanPolygon(data) (p, srid, err)
 //@   modifies nothing
+//@   ensures err == nil ==> len(data) >= 9 + polyBytes(p, len(p))
 
 //@ func ScanMultiPolygon(data) (mp, srid, err)
 //@   modifies nothing
